@@ -140,6 +140,21 @@ VARIANTS = [
     dict(name="twin: rebuild loop over a traversal bound to a local", kind="twin", file=CORE,
          old="        for p, l, r in tree.traverse():\n            if ind in tree.get_legs(l) or ind in tree.get_legs(r):",
          new="        bottom_up = tuple(tree.traverse())\n        for p, l, r in bottom_up:\n            if ind in tree.get_legs(l) or ind in tree.get_legs(r):"),
+    dict(name="round4: counter keeps its maximum when it runs empty", kind="break", file="cotengra/utils.py",
+         old="            if x == self._max_element:\n                # only need to update the max if ``x``\n                # was the last maximum sized element\n                try:\n                    self._max_element = max(self._c)\n                except ValueError:\n                    self._max_element = -float(\"inf\")\n",
+         new="            if x == self._max_element and self._c:\n                self._max_element = max(self._c)\n",
+         expect=("C04-MAXCOUNT", "reassigned-when-last-copy-goes")),
+    dict(name="round4: maximum recomputed while a copy is popped", kind="break", file="cotengra/utils.py",
+         old="        cnt = self._c[x]\n        if cnt <= 1:\n            del self._c[x]\n            if x == self._max_element:\n                # only need to update the max if ``x``\n                # was the last maximum sized element\n                try:\n                    self._max_element = max(self._c)\n                except ValueError:\n                    self._max_element = -float(\"inf\")\n        else:\n            self._c[x] = cnt - 1\n",
+         new="        cnt = self._c.pop(x, 0)\n        if x == self._max_element:\n            try:\n                self._max_element = max(self._c)\n            except ValueError:\n                self._max_element = -float(\"inf\")\n        if cnt > 1:\n            self._c[x] = cnt - 1\n",
+         expect=("C04-MAXCOUNT", "recomputed-from-final-contents")),
+    dict(name="twin: counter with an explicit emptiness branch", kind="twin", file="cotengra/utils.py",
+         old="                try:\n                    self._max_element = max(self._c)\n                except ValueError:\n                    self._max_element = -float(\"inf\")\n",
+         new="                if self._c:\n                    self._max_element = max(self._c)\n                else:\n                    self._max_element = -float(\"inf\")\n"),
+    dict(name="round4: plain sliced leaf updated in place (size kept)", kind="break", file=CORE,
+         old="                    tree._remove_node(node)\n                    tree.sliced_inputs = tree.sliced_inputs | frozenset([i])",
+         new="                    tree.sliced_inputs = tree.sliced_inputs | frozenset([i])\n                    if (i in tree.preprocessing) or (\"legs\" not in node_info):\n                        tree._remove_node(node)\n                    else:\n                        node_info.pop(\"legs\", None)\n                        node_info.pop(\"inds\", None)",
+         expect=("C04-LEAF", "leaf::size")),
 ]
 for v in VARIANTS:
     v.pop("edits", None) if v.get("edits") is None else None
